@@ -22,7 +22,7 @@ YOUR TASK: produce ONE realistic change to the NON-TEST source of pg-bifrost (th
   (b) the EXISTING tests of every package you touched still pass, unedited (`go test -vet=off -count=1 ./<pkg>/...`; transport/progress has a few timing-flaky tests: rerun once if one of those flakes; do not run the whole suite, it takes 25 minutes),
   (c) the breakage is NOT exposed by ordinary use at once: it must need something specific to manifest: a particular interleaving or completion order, a fault at a particular point, a multi-step sequence, an unusual but legitimate input or configuration, a boundary value, or two cooperating sites. Do not change exported signatures, do not touch files whose first line is `//go:build verif`, do not edit tests, docs, go.mod.
 
-{n} earlier changes are listed below; yours must be DIFFERENT in mechanism AND in code site, and must aim at a clause of the property's statement, or a dimension of its quantification, that these do not exercise. Be inventive about WHERE the fault lives and WHAT it needs. Directions nobody has taken yet or only once: anything in app/runner.go and main/main.go that hands a value from one place to another (a flag read under the wrong name, two flags swapped, a default applied on the wrong side, a unit conversion, an environment variable that shadows a flag, a value computed from another: workers, queue depth, client buffer, ticker periods, ages, partition count, routing); the S3 and RabbitMQ factories and batch factories (batch size, key space, exchange, URL); replication/client/conn (manager retry/backoff, IsClosed, Close, StartReplication options, slot creation) and replication.XLogDataToWalMessage; shutdown ordering in every stage's deferred shutdown() (what is closed before what is cancelled, recover() placement); the batcher's sendBatch / routing helpers / queue selection and its seen-list hand-over; behaviour at exactly the boundary of a limit or age (==, off-by-one in a comparison against a tick, an age of 0, a batch size of 1, one worker, queue depth 1, bucket count 1); the second and third occurrence of a rare event (two error responses in a row, two reconnects without a COMMIT between them, a nack after a nack, a retry of a retry); Go pitfalls not used yet: a method with a value receiver that mutates, a struct copied that contains a mutex/ticker, shadowed err in an if-else chain, integer division before multiplication, a deferred call evaluating its arguments early, range over a channel vs select, append to a slice shared with a previous batch. The change must still look like something a maintainer could commit.
+{n} earlier changes are listed below; yours must be DIFFERENT in mechanism AND in code site, and must aim at a clause of the property's statement, or a dimension of its quantification, that these do not exercise. Be inventive about WHERE the fault lives and WHAT it needs. Directions nobody has taken yet or only once: the STATS side effects that the properties mention (which statistic is emitted when, with which name/unit/value: dropped_too_big, failure/success counts of the sinks, ledger gauges) and their plumbing; what a stage does with a message it cannot handle (nil Pr, unknown operation, empty relation) ; the marshaller's time/lsn/txn fields for boundary values (LSN 0, 2^32-1, 2^32, 2^63, 2^64-1; server time 0, negative, far future); the partitioner's bucket arithmetic (hash to bucket for count 1, 2, large counts, xids that parse as numbers vs not); the batcher's handling of BEGIN/COMMIT markers (seen list, TotalMsgs, transactions with only filtered rows, two BEGINs of one xid, COMMIT without BEGIN); Kinesis/Kafka/S3/RabbitMQ batch IsFull/IsEmpty/Close/ModifyTime accessors and what the batcher does with a batch that Close() fails on; the RabbitMQ transporter's channel setup/teardown (Confirm, NotifyPublish buffer, channel reuse across batches, exchange name); utils.QuickHash / env helpers; conn.Manager (retry after a failed connect, StartReplication failure, IsClosed true after Close, plugin args); interactions that need THREE steps (A then B then A again). Prefer a site in a file that appears rarely or never in the list below. The change must still look like something a maintainer could commit.
 {sums}
 
 Then write a DEMONSTRATION: a new Go test file (or files) placed in the relevant package directory (name it zz_seeded_demo_test.go; it may use the package's internals and the repo's existing mocks) that FAILS with your change and PASSES on the unchanged code, deterministically. Check it three times each way: save your source change with `git diff -- . ':!*_test.go' > {out}/patch.diff`, then `git apply -R {out}/patch.diff` (demo must PASS), `git apply {out}/patch.diff` (demo must FAIL). NEVER use `git stash` (it is shared between worktrees). The demo must show the property being violated (not merely that code differs).
